@@ -314,6 +314,7 @@ type StreamEnd struct {
 	CloseWriteCount int
 	DeadlineSets    int
 	EOFReadAt       time.Duration // simulated time at which Read first returned io.EOF (-1: never)
+	EOFDeliveredAt  time.Duration // simulated time at which the peer's EOF became visible to this end (-1: never)
 	ErrReadAt       time.Duration
 	LastReadErr     error
 
@@ -327,8 +328,8 @@ type StreamEnd struct {
 
 // NewStreamPair creates a connection a<->b and registers both delivery events.
 func NewStreamPair(s *Sim, nameA, nameB string) (*StreamEnd, *StreamEnd) {
-	a := &StreamEnd{Name: nameA, s: s, EOFReadAt: -1, ErrReadAt: -1}
-	b := &StreamEnd{Name: nameB, s: s, EOFReadAt: -1, ErrReadAt: -1}
+	a := &StreamEnd{Name: nameA, s: s, EOFReadAt: -1, ErrReadAt: -1, EOFDeliveredAt: -1}
+	b := &StreamEnd{Name: nameB, s: s, EOFReadAt: -1, ErrReadAt: -1, EOFDeliveredAt: -1}
 	a.peer, b.peer = b, a
 	for _, e := range []*StreamEnd{a, b} {
 		e := e
@@ -388,6 +389,7 @@ func (e *StreamEnd) deliverSome() {
 		e.inflight = e.inflight[k:]
 	} else if e.eofSent && !e.eofSeen {
 		e.eofSeen = true
+		e.EOFDeliveredAt = e.s.Now()
 	}
 	e.wake()
 }
@@ -397,8 +399,9 @@ func (e *StreamEnd) DeliverAll() {
 	e.mu.Lock()
 	e.readable = append(e.readable, e.inflight...)
 	e.inflight = nil
-	if e.eofSent {
+	if e.eofSent && !e.eofSeen {
 		e.eofSeen = true
+		e.EOFDeliveredAt = e.s.Now()
 	}
 	e.wake()
 	e.mu.Unlock()
@@ -539,6 +542,7 @@ func (e *StreamEnd) CloseWrite() error {
 		p.eofSent = true
 		if p.AutoDeliver {
 			p.eofSeen = true
+			p.EOFDeliveredAt = p.s.Now()
 			p.wake()
 		}
 		p.mu.Unlock()
